@@ -435,7 +435,7 @@ def run(ctx):
                         "bitflips": "complete" if len(raw) <= complete_max
                         else "sampled %d" % flip_sample})
 
-    for case in ctx.cases("seed", ctx.params.get("n_seed", 64)):
+    for case in ctx.cases("seed", int(ctx.params.get("n_seed", 64) * (0.15 if ctx.params.get("config") == "python" else 1))):
         ctx.run_case(case, one)
 
 
